@@ -58,6 +58,11 @@ type replayOutcome struct {
 
 var replayCache = map[string]replayOutcome{}
 
+// known findings of the property being checked (set by cmdCheck): a dynamic oracle
+// that only fails on inputs they identify has not reproduced the obligation at hand
+var replayKnown []KnownFinding
+var replayProp string
+
 func runDynamicReplay(eng *Engine, verif string, v OblResult, seed int) (string, bool, bool) {
 	reg := loadReplayRegistry(verif)
 	e, ok := lookupOracle(reg, v.O.Func)
@@ -68,6 +73,12 @@ func runDynamicReplay(eng *Engine, verif string, v OblResult, seed int) (string,
 		return c.out, c.ok, c.ran
 	}
 	out, rep, ran := runReplayTest(eng.repoDir, verif, e, seed, v.O.Name)
+	if rep && len(replayKnown) > 0 {
+		// failing inputs that are recorded known findings do not reproduce anything new
+		if _, unmatched := matchKnownInputs(out, replayProp, replayKnown); unmatched == 0 {
+			rep = false
+		}
+	}
 	replayCache[e.Run] = replayOutcome{out, rep, ran}
 	return out, rep, ran
 }
